@@ -28,6 +28,34 @@ def put(name, body):
     if b not in d:
         raise SystemExit(f"marker {name} missing")
     d = d[:d.index(b) + len(b)] + "\n" + body + "\n" + d[d.index(e):]
+# theorem inventory
+inv = []
+for c in man["checks"]:
+    pid = c["property_id"]
+    pf = os.path.join(V, "coq", "props", pid + ".v")
+    if not os.path.exists(pf):
+        continue
+    body = open(pf).read()
+    names = re.findall(r"^\s*(?:Theorem|Lemma|Corollary)\s+(\w+)", body, re.M)
+    ex = len(re.findall(r"^\s*Example\s+\w+", body, re.M))
+    full = [n for n in names if not n.endswith("_partial") and "_refuted" not in n]
+    part = [n for n in names if n.endswith("_partial")]
+    ref = [n for n in names if "_refuted" in n]
+    closed = "?"
+    ev = os.path.join(V, "evidence", pid + ".json")
+    if os.path.exists(ev):
+        try:
+            th = json.load(open(ev))["coverage"].get("theorems", [])
+            closed = f"{sum(1 for t in th if t.get('closed'))}/{len(th)} closed under the global context"
+        except Exception:
+            pass
+    deps = sorted(set(re.findall(r"From WH\.(?:Model|Proofs) Require Import ([^.]+)\.", body)))
+    inv.append(f"* **{pid}** — `coq/props/{pid}.v`: {len(names)} theorems ({len(full)} full, {len(part)} `_partial`, {len(ref)} `_refuted` witnesses of pre-fix or unrepaired behaviour), {ex} non-vacuity examples; {closed}.\n"
+               f"  imports: {'; '.join(deps)}.\n"
+               + ("  partial: " + ", ".join(f"`{n}`" for n in part) + "\n" if part else "")
+               + "  full: " + ", ".join(f"`{n}`" for n in full))
+inventory = "\n".join(inv)
+put("INVENTORY", inventory)
 put("FINDINGS", findings)
 put("SEEDED", seeded)
 put("CLAIMED", status)
